@@ -3,8 +3,6 @@ package pairs
 import (
 	"flag"
 	"fmt"
-	utils "github.com/comdex-official/comdex/types"
-	sdk "github.com/cosmos/cosmos-sdk/types"
 	"os"
 	"reflect"
 	"time"
@@ -59,24 +57,6 @@ func devMain(args []string) int {
 		a := g.C.App
 		fmt.Printf("h=%d vaults=%d lockedV2=%d aucV2=%d borrows=%d lends=%d lockers=%d\n", g.C.Height, len(a.VaultKeeper.GetVaults(ctx)), len(a.NewliqKeeper.GetLockedVaults(ctx)),
 			len(a.NewaucKeeper.GetAuctions(ctx)), len(a.LendKeeper.GetAllBorrow(ctx)), len(a.LendKeeper.GetAllLend(ctx)), len(a.LockerKeeper.GetLockers(ctx)))
-		if g.C.Height >= 14 {
-			cc, _ := ctx.CacheContext()
-			fmt.Printf("   sweep: %v len=%d\n", a.NewliqKeeper.LiquidateVaults(cc, 0), a.VaultKeeper.GetLengthOfVault(cc))
-			for _, v := range a.VaultKeeper.GetVaults(cc) {
-				v := v
-				err := utils.ApplyFuncIfNoError(cc, func(c sdk.Context) error { return a.NewliqKeeper.LiquidateIndividualVault(c, v.Id, "", false) })
-				fmt.Printf("   unit liquidate vault %d: %v\n", v.Id, err)
-			}
-			cc3, _ := ctx.CacheContext()
-			h0, f0 := a.NewliqKeeper.GetLiquidationOffsetHolder(cc3, "vault-liquidations", 0)
-			e3 := a.NewliqKeeper.LiquidateVaults(cc3, 0)
-			h1, f1 := a.NewliqKeeper.GetLiquidationOffsetHolder(cc3, "vault-liquidations", 0)
-			fmt.Println("   SWEEP3", h0, f0, e3, h1, f1, len(a.VaultKeeper.GetVaults(cc3)), len(a.NewliqKeeper.GetLockedVaults(cc3)))
-			cc2, _ := ctx.CacheContext()
-			fmt.Printf("   sweep again on fresh: %v len=%d\n", a.NewliqKeeper.LiquidateVaults(cc2, 0), a.VaultKeeper.GetLengthOfVault(cc2))
-			h, f := a.NewliqKeeper.GetLiquidationOffsetHolder(cc2, "vault", 0)
-			fmt.Println("   holder", h, f, "params", a.NewliqKeeper.GetParams(cc2), "lenctr", a.VaultKeeper.GetLengthOfVault(cc2))
-		}
 		for _, au := range a.NewaucKeeper.GetAuctions(ctx) {
 			fmt.Printf("   auction %d dutch=%v coll=%s debt=%s lv=%d\n", au.AuctionId, au.AuctionType, au.CollateralToken, au.DebtToken, au.LockedVaultId)
 		}
@@ -159,6 +139,7 @@ func roundtripMain(args []string) int {
 	out := fs.String("out", "genesis.ndjson", "tree log")
 	every := fs.Int("every", 4, "round trip after every n-th block")
 	tail := fs.Int("tail", 0, "random tail blocks")
+	nwl := fs.Int("workloads", 1, "number of seeded workloads (seed, seed+1000, ...)")
 	behs := fs.String("behaviours", "", "file with the T lines of MC_Genesis")
 	maxBeh := fs.Int("maxbeh", 1000, "")
 	_ = fs.Parse(args)
@@ -179,23 +160,27 @@ func roundtripMain(args []string) int {
 			nbeh++
 		}
 	}
-	run := fmt.Sprintf("wl:%d", *seed)
-	g := NewGen(*seed)
-	g.Base()
-	g.Tail(*tail)
-	root := lg.Add(0, run, "Init", map[string]interface{}{"seed": *seed, "blocks": len(g.W.Blocks)}, nil, map[string]interface{}{"h": 1})
-	o := NewFresh(Funds())
-	parent := root
-	Replay(o, g.W, func(b BlockOut) bool {
-		if b.Begin.Panic || b.End.Panic {
-			lg.Add(parent, run, "Halt", map[string]interface{}{"k": b.Index, "h": b.Height}, b, map[string]interface{}{"h": b.Height})
-			return false
-		}
-		if (b.Index+1)%*every == 0 || b.Index == len(g.W.Blocks)-1 {
-			parent = RoundTrip(o, lg, parent, run, map[string]interface{}{"k": b.Index, "h": b.Height}, true, &stt)
-		}
-		return true
-	})
+	for wn := 0; wn < *nwl; wn++ {
+		wseed := *seed + int64(1000*wn)
+		run := fmt.Sprintf("wl:%d", wseed)
+		g := NewGen(wseed)
+		g.Base()
+		g.Tail(*tail)
+		g.Finish()
+		root := lg.Add(0, run, "Init", map[string]interface{}{"seed": wseed, "blocks": len(g.W.Blocks)}, nil, map[string]interface{}{"h": 1})
+		o := NewFresh(Funds())
+		parent := root
+		Replay(o, g.W, func(b BlockOut) bool {
+			if b.Begin.Panic || b.End.Panic {
+				lg.Add(parent, run, "Halt", map[string]interface{}{"k": b.Index, "h": b.Height}, b, map[string]interface{}{"h": b.Height})
+				return false
+			}
+			if (b.Index+1)%*every == 0 || b.Index == len(g.W.Blocks)-1 {
+				parent = RoundTrip(o, lg, parent, run, map[string]interface{}{"k": b.Index, "h": b.Height}, true, &stt)
+			}
+			return true
+		})
+	}
 	if err := lg.Write(*out); err != nil {
 		fmt.Fprintln(os.Stderr, err)
 		return 1
